@@ -4,13 +4,16 @@
 //! Case lines (see lean/Driver/Geometry.lean for the grammar).  Numbers are decimal integers or
 //! `h` + 16 hex digits of the f64 bit pattern, so model and implementation get exactly the same inputs.
 //!
-//! raw  = reported kind + coordinates as f64 bit patterns (compared bit for bit with the Float model)
+//! raw  = reported kind + coordinates rounded to the grid 2^-30 (≈ 1e-9); with the case prefix `bits` the full f64 bit
+//!        patterns (used only for the logged, non-alarmed bit-equality sample)
 //! view = mode K: reported kind (for small-integer configurations additionally cross-checked against the
 //!                kind decided here in exact i128 arithmetic: `X!=exact:Y` on disagreement)
-//!        mode P: `ok` iff every returned point is within 1e-7 of both primitives, measured in f64 against
-//!                the *defining* data (two points / coefficients / centre+radius), not the normalised `Line`
+//!        mode P: `ok` iff every point the IMPLEMENTATION returned is within 1e-7 of both primitives, decided in exact
+//!                dyadic arithmetic (src/exact.rs) against the *defining* data (two points / coefficients / centre+radius),
+//!                not the normalised `Line`; plus `iter-mismatch` if `into_iter()` does not report the same points
 #[path = "../../common/mod.rs"]
 mod common;
+mod exact;
 use common::*;
 use rlib_geometry::{
     circle::{Circle, PointPosition},
@@ -51,11 +54,23 @@ fn as_int(t: &str) -> Option<i128> {
     }
 }
 
+/// set per case: `bits` prefix => coordinates as full bit patterns, else rounded to the grid 2^-30
+static FULL_BITS: std::sync::atomic::AtomicBool = std::sync::atomic::AtomicBool::new(false);
+
 fn show_num(v: f64) -> String {
     if v.is_nan() {
         "nan".into()
-    } else {
+    } else if FULL_BITS.load(std::sync::atomic::Ordering::Relaxed) {
         format!("{:016x}", v.to_bits())
+    } else {
+        let g = (v * 1073741824.0).round();
+        if g.abs() < 4.0e18 {
+            format!("{}", g as i64)
+        } else if g > 0.0 {
+            "big+".into()
+        } else {
+            "big-".into()
+        }
     }
 }
 
@@ -180,8 +195,27 @@ fn cross_check(reported: &str, exact: Option<&'static str>) -> String {
 // run
 // ------------------------------------------------------------------------------------------------
 
+/// exact where possible (always, inside the property's domain); f64 only for absurd magnitudes
 fn near_circle(cx: f64, cy: f64, r: f64, p: &Point) -> bool {
-    ((p.x - cx).hypot(p.y - cy) - r).abs() <= TOL
+    match exact::near_circle(cx, cy, r, p.x, p.y) {
+        Some(b) => b,
+        None => ((p.x - cx).hypot(p.y - cy) - r).abs() <= TOL,
+    }
+}
+
+fn near_line(ls: &LS, p: &Point) -> bool {
+    let l = match *ls {
+        LS::B(ux, uy, vx, vy) => exact::line_between(ux, uy, vx, vy),
+        LS::N(a, b, c) => exact::line_new(a, b, c),
+    };
+    match l.and_then(|l| exact::near_line(&l, p.x, p.y)) {
+        Some(b) => b,
+        None => ls.dist_to(p.x, p.y) <= TOL,
+    }
+}
+
+fn same_points(a: &[Point], b: &[Point]) -> bool {
+    a.len() == b.len() && a.iter().zip(b).all(|(p, q)| p.x.to_bits() == q.x.to_bits() && p.y.to_bits() == q.y.to_bits())
 }
 
 fn ok_off(b: bool) -> &'static str {
@@ -224,6 +258,9 @@ fn run_inner(t: &[&str]) -> Option<(String, String)> {
                 CircleLineIntersection::Touch(p) => ("Touch", vec![p]),
                 CircleLineIntersection::Intersect(p, q) => ("Intersect", vec![p, q]),
             };
+            // the way points are *reported*: `into_iter()` must yield the same points, same count, same order
+            let it: Vec<Point> = intersect_cl(&c, &l).into_iter().collect();
+            let iter_tag = if same_points(&pts, &it) { "" } else { " iter-mismatch" };
             let mut raw = kind.to_string();
             for p in &pts {
                 raw.push(' ');
@@ -235,11 +272,11 @@ fn run_inner(t: &[&str]) -> Option<(String, String)> {
                         (Some(x), Some(y), Some(rr), Some(l)) => exact_cl(x, y, rr, l),
                         _ => None,
                     };
-                    (raw.to_string(), cross_check(kind, exact).to_string())
+                    (raw.to_string(), format!("{}{}", cross_check(kind, exact), iter_tag))
                 }
                 "P" => {
-                    let ok = pts.iter().all(|p| near_circle(cx, cy, r, p) && ls.dist_to(p.x, p.y) <= TOL);
-                    (raw.to_string(), ok_off(ok).to_string())
+                    let ok = pts.iter().all(|p| near_circle(cx, cy, r, p) && near_line(&ls, p));
+                    (raw.to_string(), format!("{}{}", ok_off(ok), iter_tag))
                 }
                 _ => return None,
             }
@@ -259,6 +296,8 @@ fn run_inner(t: &[&str]) -> Option<(String, String)> {
                 CircleIntersection::TouchOutside(p) => ("TouchOutside", vec![p]),
                 CircleIntersection::Intersect(p, q) => ("Intersect", vec![p, q]),
             };
+            let it: Vec<Point> = res.into_iter().collect();
+            let iter_tag = if same_points(&pts, &it) { "" } else { " iter-mismatch" };
             let mut raw = kind.to_string();
             for p in &pts {
                 raw.push(' ');
@@ -268,11 +307,11 @@ fn run_inner(t: &[&str]) -> Option<(String, String)> {
                 "K" => {
                     let ints: Option<Vec<i128>> = a.iter().map(|s| as_int(s)).collect();
                     let exact = ints.and_then(|z| exact_cc(z[0], z[1], z[2], z[3], z[4], z[5]));
-                    (raw.to_string(), cross_check(kind, exact).to_string())
+                    (raw.to_string(), format!("{}{}", cross_check(kind, exact), iter_tag))
                 }
                 "P" => {
                     let ok = pts.iter().all(|p| near_circle(v[0], v[1], v[2], p) && near_circle(v[3], v[4], v[5], p));
-                    (raw.to_string(), ok_off(ok).to_string())
+                    (raw.to_string(), format!("{}{}", ok_off(ok), iter_tag))
                 }
                 _ => return None,
             }
@@ -302,7 +341,7 @@ fn run_inner(t: &[&str]) -> Option<(String, String)> {
                     (raw.to_string(), cross_check(kind, exact).to_string())
                 }
                 "P" => {
-                    let ok = res.iter().all(|p| u.dist_to(p.x, p.y) <= TOL && w.dist_to(p.x, p.y) <= TOL);
+                    let ok = res.iter().all(|p| near_line(&u, p) && near_line(&w, p));
                     (raw.to_string(), ok_off(ok).to_string())
                 }
                 _ => return None,
@@ -387,7 +426,12 @@ fn run_inner(t: &[&str]) -> Option<(String, String)> {
 }
 
 fn run_case(line: &str) -> String {
-    let t: Vec<&str> = line.split_whitespace().collect();
+    let mut t: Vec<&str> = line.split_whitespace().collect();
+    let full = t.first() == Some(&"bits");
+    if full {
+        t.remove(0);
+    }
+    FULL_BITS.store(full, std::sync::atomic::Ordering::Relaxed);
     match catch(|| run_inner(&t)) {
         Ok(Some((raw, view))) => out2(&raw, &view),
         Ok(None) => bad(),
@@ -492,7 +536,8 @@ const PYTH: [(i64, i64, i64); 12] = [
 ];
 
 /// offsets from exact tangency / exact border, in absolute units
-const DELTAS: [f64; 13] = [0.0, 1e-13, 1e-11, 3e-10, 9e-10, 1.1e-9, 3e-9, 9e-9, 1.2e-8, 1e-7, 1e-5, 1e-3, 0.1];
+// (2e-9 … 9e-9 = 2–9 EPS: just outside the property's 1e-9 band, where the kind is already required)
+const DELTAS: [f64; 16] = [0.0, 1e-13, 1e-11, 3e-10, 9e-10, 1.1e-9, 2e-9, 3e-9, 5e-9, 9e-9, 1.2e-8, 1e-7, 1e-5, 1e-3, 0.1, 1.02e-9];
 
 fn gen(args: &Args, emit: &mut dyn FnMut(String), st: &mut Stats) {
     let thorough = args.tier == "thorough";
@@ -815,7 +860,7 @@ fn gen(args: &Args, emit: &mut dyn FnMut(String), st: &mut Stats) {
         // near-parallel lines
         let u = g.rand_line(500.0);
         if let LS::B(ux, uy, vx, vy) = u {
-            let ang = *g.rng.pick(&[0.0, 1e-14, 1e-11, 5e-10, 2e-9, 1.2e-8, 1e-6, 1e-3, 3e-2]) * g.sign();
+            let ang = *g.rng.pick(&[0.0, 1e-14, 1e-11, 5e-10, 1.1e-9, 2e-9, 4e-9, 8e-9, 1.2e-8, 1e-6, 1e-4, 1e-3, 3e-2]) * g.sign();
             let (dx, dy) = (vx - ux, vy - uy);
             let (ex, ey) = (dx * ang.cos() - dy * ang.sin(), dx * ang.sin() + dy * ang.cos());
             let (ox, oy) = (g.unif(-300.0, 300.0), g.unif(-300.0, 300.0));
@@ -840,6 +885,30 @@ fn gen(args: &Args, emit: &mut dyn FnMut(String), st: &mut Stats) {
             if p.0.abs() <= 1000.0 && p.1.abs() <= 1000.0 {
                 g.con(&format!("con_near_d{:e}", off.abs()), l, p);
             }
+        }
+    }
+
+    // concentric and nearly concentric circles around the `Same` / `TouchInside` / `None` decisions: d = 0 exactly (in
+    // the domain) with radius differences of 0 … 10 EPS incl. one ulp either side of EPS (the 542ea35 corner: radii
+    // 0.5 and fl(0.5+1e-9) gave a NaN touch point), and tiny d (outside the accuracy domain, still compared with the model)
+    for _ in 0..(1500 * scale) {
+        let r = *g.rng.pick(&[0.125, 0.5, 1.0, 3.0, 10.0, 100.0, 777.0]) * if g.rng.chance(1, 3) { g.unif(0.9, 1.1) } else { 1.0 };
+        let k = *g.rng.pick(&[0.0, 0.5, 0.9, 0.999, 1.0, 1.001, 1.1, 2.0, 5.0, 10.0]);
+        let mut r2 = r + k * 1e-9;
+        match g.rng.below(4) {
+            0 => r2 = f64::from_bits(r2.to_bits() + 1),
+            1 => r2 = f64::from_bits(r2.to_bits() - 1),
+            _ => {}
+        }
+        let (cx, cy) = if g.rng.chance(1, 2) { (g.int(-30, 30), g.int(-30, 30)) } else { (g.unif(-900.0, 900.0), g.unif(-900.0, 900.0)) };
+        let tiny = *g.rng.pick(&[0.0, 0.0, 0.0, 1e-300, 1e-12, 5e-10, 1e-9, 2e-9, 1e-6]);
+        let th = g.unif(0.0, std::f64::consts::TAU);
+        let (bx, by) = (cx + tiny * th.cos(), cy + tiny * th.sin());
+        let fam = if (bx, by) == (cx, cy) { "cc_concentric" } else { "cc_near_concentric" };
+        if g.rng.chance(1, 2) {
+            g.cc(fam, (cx, cy, r), (bx, by, r2));
+        } else {
+            g.cc(fam, (bx, by, r2), (cx, cy, r));
         }
     }
 
